@@ -7,7 +7,7 @@ from .solve import discharge
 
 def main(argv):
   reg = Registry().load_package('specs')
-  src = Sources('/repo')
+  src = Sources(__import__('os').environ.get('PYVC_REPO', '/repo'))
   for unit in argv:
     eng = Engine(reg, src)
     t0 = time.time()
